@@ -4,6 +4,9 @@ Leg M: TLC checks on every (formula, frame, options) in the bound (MC_Materializ
        reduction off each term contributes the complete Kronecker product of the full encodings
        (column count = product of widths), the intercept is a column of ones, the literal scale
        is carried exactly once by every emitted scoped term.
+Leg T: random frames (1-12 rows, up to 5 levels, nulls, declared categoricals), random formulas over 3 numeric
+       and 3 categorical variables with C(...) contrasts and literal scales, random options, recorded from the
+       real code and validated by TLC (Trace_Materialize).
 Leg R: every enumerated case is built by model_matrix for the pandas, numpy and sparse outputs;
        names (from the attached spec and, for pandas, the frame labels) and every cell are
        compared with the matrix the specification computes in exact integers.
@@ -68,6 +71,10 @@ def run(ctx: Ctx) -> None:
         ctx.sample({"formula": matlib.render_formula(c["written"], c["icpt"]), "frame": c["fid"], "full_rank": c["full_rank"],
                     "names": c["names"], "cells": c["cells"]})
     ctx.exhaustive = True
+    # leg T: random frames / formulas / options far outside the enumerated frames, validated by TLC
+    from .. import mattrace
+
+    mattrace.run(ctx, 1500 if ctx.quick else 25000, "c02", judge=lambda v: v in ("column-names", "cells", "unexpected-exception"))
 
 
 def replay(path: str) -> int:
